@@ -113,6 +113,8 @@ Record laws (O : oracle) : Prop := {
   xcp_seal_len : forall k n a m, length (fst (xcp_seal O k n a m)) = length m /\ length (snd (xcp_seal O k n a m)) = 16;
   xcp_open_seal : forall k n a m, xcp_open O k n a (fst (xcp_seal O k n a m)) (snd (xcp_seal O k n a m)) = Some m;
   xcp_open_len : forall k n a c t m, xcp_open O k n a c t = Some m -> length m = length c;
+  (* the tag is a function of key, nonce, associated data and ciphertext: at most one tag opens them *)
+  xcp_tag_unique : forall k n a c t t' m m', xcp_open O k n a c t = Some m -> xcp_open O k n a c t' = Some m' -> t = t';
   ed_pk_len : forall sd, length (ed_pk O sd) = 32;
   ed_pk_valid : forall sd, ed_pk_ok O (ed_pk O sd) = true;
   ed_sign_len : forall sd m, length (ed_sign O sd m) = 64;
